@@ -167,6 +167,30 @@ def discharge(ob, timeout_ms=None):
     return res
 
 
+def sat_check(constraints, timeout_ms=20000):
+    """'sat' / 'unsat' / 'unknown' for a satisfiability (vacuity) question, robust against nlsat run-time variance: the full query under a wall cap, then variants in which the real
+    variables are fixed to seeded rationals (a `sat` of a variant is a `sat` of the original; only the full query can say `unsat`)"""
+    so = z3.Solver()
+    so.set('timeout', int(timeout_ms))
+    so.add(constraints)
+    r = so.check()
+    if r != z3.unknown:
+        return str(r)
+    rnd = random.Random(SEED * 104729 + 7)
+    vs = _vars_of(list(constraints))
+    reals = [v for v in vs.values() if z3.is_real(v)]
+    for attempt in range(8):
+        frac = (0.4, 0.7, 0.9, 1.0)[attempt % 4]
+        fix = [v == z3.RealVal(str(Fr(rnd.randint(1, 30), rnd.randint(1, 7)))) for v in reals if rnd.random() < frac and '!' not in v.decl().name()]
+        s2 = z3.Solver()
+        s2.set('timeout', int(max(timeout_ms // 4, 3000)))
+        s2.add(constraints)
+        s2.add(fix)
+        if s2.check() == z3.sat:
+            return 'sat'
+    return 'unknown'
+
+
 def reach_twin(name, assumptions, timeout_ms=20000, with_axioms=True, with_dens=True):
     """vacuity guard: the assumption set (plus axioms and denominator side conditions) must be satisfiable"""
     a = list(assumptions)
@@ -174,11 +198,8 @@ def reach_twin(name, assumptions, timeout_ms=20000, with_axioms=True, with_dens=
         a += list(CTX.axioms)
     if with_dens:
         a += CTX.den_conds()
-    so = z3.Solver()
-    so.set('timeout', int(timeout_ms))
-    so.add(a)
     t = time.time()
-    r = str(so.check())
+    r = sat_check(a, timeout_ms)
     return {'name': name + ' [reachability twin]', 'key': name + '#twin', 'twin': True, 'verdict': r,
             'solver_s': round(time.time() - t, 3), 'info': {}}
 
